@@ -42,7 +42,17 @@ def decay(x, A=1.0, q=-1.0):
     return A * np.exp(x / q)
 
 
+VARIANT = [0]
+
+
+def wobble(n):
+    """deterministic perturbation of the data set number VARIANT[0] (thorough tier: several data sets per configuration)"""
+    v = VARIANT[0]
+    return 0.35 * np.sin((np.arange(n) + 1.0) * (1.0 + v)) * (v > 0)
+
+
 def make(kind, config, shift=0.0):
+    shift = shift + wobble(6) if kind in ("xy", "indexed") else shift
     if kind == "xy-decay":                # q = -tau: the lower uncertainty of q is the larger one
         xs = np.array([0.5, 1.0, 1.5, 2.0, 2.5, 3.0, 3.5, 4.0])
         f = XYFit([xs, np.array([4.61, 2.86, 2.4, 1.1, 1.32, 1.0, 0.83, 0.43])], decay)
@@ -67,13 +77,13 @@ def make(kind, config, shift=0.0):
         if config == "model-relative":
             f.add_error(0.05, relative=True, reference="model")
     elif kind == "hist" and config == "empty-bin":
-        f = HistFit(HistContainer(8, (-3, 3.1), fill_data=RAW), normal, cost_function="poisson")          # the first bin holds no entry: its Poisson uncertainty is 0, the others' is not
+        f = HistFit(HistContainer(8, (-3, 3.1), fill_data=RAW[VARIANT[0]:]), normal, cost_function="poisson")          # the first bin holds no entry: its Poisson uncertainty is 0, the others' is not
     elif kind == "hist":
-        f = HistFit(HistContainer(6, (-2.3, 3.1), fill_data=RAW), normal, cost_function={"poisson-like": "poisson", "gauss-approx": "gauss_approximation"}.get(config, "poisson"))
+        f = HistFit(HistContainer(6, (-2.3, 3.1), fill_data=RAW[VARIANT[0]:]), normal, cost_function={"poisson-like": "poisson", "gauss-approx": "gauss_approximation"}.get(config, "poisson"))
         if config == "gauss-approx":
             f.add_error(0.5)
     else:
-        f = UnbinnedFit(RAW, normal)
+        f = UnbinnedFit(RAW[VARIANT[0]:], normal)
     return f
 
 
@@ -281,6 +291,12 @@ def check_legend(f, fig, tag, asym=False):
 
 
 def gen(tier, seed):
+    for variant in (range(6) if tier == "thorough" else (0,)):
+        for inp in gen_one(tier, seed):
+            yield dict(inp, variant=variant)
+
+
+def gen_one(tier, seed):
     for kind, configs in (("xy", ("y-errors", "xy-errors", "model-relative", "correlated", "everything")), ("indexed", ("y-errors", "model-relative", "poisson-like")), ("hist", ("poisson-like", "gauss-approx", "empty-bin")), ("unbinned", ("plain",))):
         for config in configs:
             for option in ("plain", "ratio", "residual", "pull"):
@@ -301,6 +317,7 @@ def gen(tier, seed):
 @R.oracle("plot_draws_the_fit", gen, obligation="PlotAdapter* / Plot")
 def plot(inp):
     kind, config, option = inp["kind"], inp["config"], inp["option"]
+    VARIANT[0] = inp.get("variant", 0)
     plt.close("all")
     if kind == "multifit":
         a, b = make("xy", config), make("xy", config, shift=1.5)
@@ -315,6 +332,8 @@ def plot(inp):
         fits = [make(kind, config)]
         fits[0].do_fit()
         target = fits[0]
+    if option == "pull" and any(kind_of(f_) != "unbinned" and np.any(total_yerr(f_) == 0) for f_ in fits):
+        return None          # a point without any uncertainty has no pull: outside the property's statement
     p = Plot(target, separate_figures=inp.get("separate", False) or kind == "multifit")
     if inp["log_x"]:
         p.x_scale = "log"
